@@ -429,6 +429,8 @@ def to_np(v):
         return np.int64(v)
     if type(v) is float:
         return np.float64(v)
+    if type(v) is bool:
+        return np.bool_(v)      # what a comparison of numpy numbers returns
     return v
 
 
@@ -437,7 +439,7 @@ def run_numpy(rec, env, op, a, b):
     numpy-typed operands (judged against the reference for the plain values)"""
     text = formula_for(op, 'A1', 'B1')
     variants = [(to_np(a), to_np(b))]
-    if type(a) in (int, float) and type(b) in (int, float):
+    if type(a) in (int, float, bool) and type(b) in (int, float, bool):
         variants += [(to_np(a), b), (a, to_np(b))]
     for k, (na, nb) in enumerate(variants):
         run_case(rec, env, op, a, b, f'numpy{k}',
@@ -457,7 +459,8 @@ def run_shard(shard, rec):
                     if a is not POOL[0]:
                         continue
                     a = None
-                if type(a) in (int, float) or type(b) in (int, float):
+                if type(a) in (int, float, bool) or \
+                        type(b) in (int, float, bool):
                     run_numpy(rec, env, op, a, b)
         rec.exhaustive.append(f'ops {shard["ops"]} x pool^2 with numpy-typed '
                               f'numeric operands')
